@@ -1211,6 +1211,90 @@ def ill_typed(r, d):
     return new, n, i
 
 
+# ------------------------------------------------------------------------------------------------ read-only histories
+
+# ordinary queries that take a time step (or an id / a point); called with a few arguments, exceptions are ignored
+TIME_QUERIES = ["occupancy_at_time", "state_at_time", "occupancy_at_time_step", "state_at_time_step", "get_state_at_time_step",
+                "occupancies_at_time_step", "signal_state_at_time_step", "obstacle_states_at_time_step"]
+ID_QUERIES = ["find_lanelet_by_id", "find_traffic_sign_by_id", "find_traffic_light_by_id", "find_intersection_by_id",
+              "find_area_by_id", "obstacle_by_id", "find_planning_problem_by_id"]
+POINT_QUERIES = ["contains_point", "find_lanelet_by_position"]
+
+
+def walk_objects(v, seen=None, depth=0):
+    """the object and every scenario-element object reachable through the public getters of the class specs"""
+    seen = set() if seen is None else seen
+    if depth > 12 or v is None or isinstance(v, (bool, int, float, str, enum.Enum)):
+        return
+    import numpy as np
+    if isinstance(v, np.ndarray):
+        return
+    if isinstance(v, (list, tuple, set, frozenset)):
+        for e in list(v):
+            yield from walk_objects(e, seen, depth + 1)
+        return
+    if isinstance(v, dict):
+        for e in list(v.values()):
+            yield from walk_objects(e, seen, depth + 1)
+        return
+    spec = family_of(v)
+    if spec is None or id(v) in seen:
+        return
+    seen.add(id(v))
+    yield v
+    names = sorted(v.attributes) if spec.family == "State" else [g for g in getters(spec) if hasattr(v, g)]
+    for g in names:
+        try:
+            yield from walk_objects(getattr(v, g), seen, depth + 1)
+        except Exception:  # noqa
+            pass
+
+
+def read_only_history(x):
+    """Look at an object the way a user does without changing it: on the object and on everything reachable from it read
+    every public non-callable attribute / property, take str / repr / hash, and call the ordinary queries by time step,
+    id and point. Returns the number of reads made. Deterministic; exceptions of individual reads are ignored."""
+    import warnings
+
+    import numpy as np
+    n = 0
+    with warnings.catch_warnings():
+        warnings.simplefilter("ignore")
+        for o in list(walk_objects(x)):
+            for name in dir(type(o)):
+                if name.startswith("_"):
+                    continue
+                try:
+                    a = getattr(type(o), name)
+                except Exception:  # noqa
+                    continue
+                if callable(a) and not isinstance(a, property):
+                    continue
+                try:
+                    getattr(o, name)
+                    n += 1
+                except Exception:  # noqa
+                    pass
+            for f in (str, repr, hash):
+                try:
+                    f(o)
+                    n += 1
+                except Exception:  # noqa
+                    pass
+            for q, args in ([(m, [0, 1, 2, 3, 5, 21]) for m in TIME_QUERIES] + [(m, [1, 2, 7]) for m in ID_QUERIES]
+                            + [(m, [np.array([0.5, 0.25])]) for m in POINT_QUERIES]):
+                m = getattr(o, q, None)
+                if m is None:
+                    continue
+                for a in args:
+                    try:
+                        m([a] if q == "find_lanelet_by_position" else a)
+                        n += 1
+                    except Exception:  # noqa
+                        pass
+    return n
+
+
 # ------------------------------------------------------------------------------------------------ description transformers
 
 def permute_sets(r, d):
